@@ -11,6 +11,8 @@ the bitmap setters touch exactly bit i; the account is resized by +-112 exactly 
 flips initialisation and rent follows the position's 0 <-> non-0 liquidity; fixed and
 dynamic arrays share the range / usability checks; each side's rent / size update is
 executed on that side's account and every caller passes (lower, upper, lower, upper).
+Also decided: searches and resize flags agree between the encodings and packagings (C10.R3 instances and
+three C12.R5 pairs re-decided here);
 Not decided: equality of answers over update sequences; well-formedness over histories."""
 from analysis import cfg, atoms as A, preach, layout as L, writes
 from analysis.ir import callee_path, AnchorMissing
